@@ -163,9 +163,12 @@ func handleFallbackData(s *Session, h header, buf []byte) (int, bool, error) {
 	if len(buf) < payloadLen {
 		return 0, true, nil
 	}
+	const fallbackDataHeader = 8
+	if payloadLen < fallbackDataHeader {
+		return headerSize, false, ErrInvalidMsgType
+	}
 	data := make([]byte, payloadLen)
 	copy(data, buf[:payloadLen])
-	const fallbackDataHeader = 8
 	// fallback data layout:  eventHeader | seqID | status | payload
 	seqID := binary.BigEndian.Uint32(data[:4])
 	// now the first byte of status is streamState, and the other byte of status is undefined .
